@@ -9,6 +9,7 @@ Randomization ranges follow MuJoCo Playground conventions.
 
 from __future__ import annotations
 
+from jax import numpy as jnp
 from jax import random as jr
 from jaxtyping import Array, Float, Key
 from mujoco import mjx
@@ -19,22 +20,27 @@ def randomize_friction(
     *,
     key: Key[Array, ""],
     friction_range: tuple[float, float] = (0.4, 1.0),
+    pair_ids: tuple[int, ...] = (0, 1),
 ) -> mjx.Model:
     """Randomize floor/foot contact friction.
 
-    Applies a uniform random friction coefficient to the first two
-    contact pairs (left_foot_floor, right_foot_floor).
+    Applies a uniform random friction coefficient to the tangential
+    friction of the contact pairs ``pair_ids``. The MuJoCo compiler sorts
+    contact pairs, so the indices of the foot/floor pairs must be looked up
+    by name in the compiled model rather than read off the XML order.
 
     Args:
         model: MJX model to randomize.
         key: PRNG key.
         friction_range: Min and max friction coefficient.
+        pair_ids: Indices of the contact pairs to randomize
+            (left_foot_floor, right_foot_floor).
 
     Returns:
         Model with randomized pair friction.
     """
     friction = jr.uniform(key, minval=friction_range[0], maxval=friction_range[1])
-    pair_friction = model.pair_friction.at[0:2, 0:2].set(friction)
+    pair_friction = model.pair_friction.at[jnp.asarray(pair_ids), 0:2].set(friction)
     return model.tree_replace({"pair_friction": pair_friction})
 
 
@@ -145,6 +151,7 @@ def randomize_model(
     armature_scale_range: tuple[float, float] = (1.0, 1.05),
     mass_scale_range: tuple[float, float] = (0.9, 1.1),
     torso_offset_range: tuple[float, float] = (-1.0, 1.0),
+    friction_pair_ids: tuple[int, ...] = (0, 1),
 ) -> mjx.Model:
     """Apply all domain randomizations to a model.
 
@@ -160,13 +167,19 @@ def randomize_model(
         armature_scale_range: Armature scale range.
         mass_scale_range: Body mass scale range.
         torso_offset_range: Torso mass offset range.
+        friction_pair_ids: Indices of the foot/floor contact pairs.
 
     Returns:
         Fully randomized model.
     """
     friction_key, floss_key, armature_key, mass_key = jr.split(key, 4)
 
-    model = randomize_friction(model, key=friction_key, friction_range=friction_range)
+    model = randomize_friction(
+        model,
+        key=friction_key,
+        friction_range=friction_range,
+        pair_ids=friction_pair_ids,
+    )
     model = randomize_friction_loss(
         model,
         key=floss_key,
